@@ -81,17 +81,18 @@ theorem C15_utf8_range_exact (lo hi : Nat) (bs : List Nat) :
   Utf8Range.compileUTF8Range_exact lo hi bs
 
 /-- a whole class (all three compilation paths): what is accepted, exactly — the encodings of its scalar members, plus the
-    two deviations named in the statement (a lone byte ≥ 0x80 when the class contains every non-ASCII rune: deliberate, it
-    is how `[^,]` matches an invalid byte as regexp does; a raw surrogate encoding on the small-class path: a defect) -/
+    one deviation named in the statement (a lone byte ≥ 0x80 when the class contains every non-ASCII rune: deliberate, it
+    is how `[^,]` matches an invalid byte as regexp does).  Surrogate members contribute nothing on any path (the
+    small-class path skips them since b9d1f3d, `C15_small_class_surrogate_fixed`). -/
 theorem C15_class_language (ranges : List (Nat × Nat)) (hwf : Utf8Range.wfRanges ranges = true) (bs : List Nat) :
     Utf8Range.accepts (Utf8Range.classSeqs ranges) bs = true ↔
       (∃ r, Utf8Range.inR r ranges ∧ isScalar r ∧ bs = encode r) ∨
       (Utf8Range.usesLarge ranges = true ∧ Utf8Range.coversAllNonASCII (Utf8Range.nonAsciiPart ranges) = true ∧
-        ∃ b, 0x80 ≤ b ∧ b ≤ 0xFF ∧ bs = [b]) ∨
-      (Utf8Range.usesSmall ranges = true ∧ ∃ r, Utf8Range.inR r ranges ∧ 0xD800 ≤ r ∧ r ≤ 0xDFFF ∧ bs = Utf8Range.enc3 r) :=
+        ∃ b, 0x80 ≤ b ∧ b ≤ 0xFF ∧ bs = [b]) :=
   Utf8Range.classSeqs_exact ranges hwf bs
 
-/-- on classes where neither deviation applies (decidable `exactClass`, evaluated per instance): exactly the UTF-8 of the members -/
+/-- on classes where the deviation does not apply (decidable `exactClass` = well-formed and not the any-non-ASCII shortcut,
+    evaluated per instance): exactly the UTF-8 of the members -/
 theorem C15_class_exact (ranges : List (Nat × Nat)) (h : Utf8Range.exactClass ranges = true) (bs : List Nat) :
     Utf8Range.accepts (Utf8Range.classSeqs ranges) bs = true ↔ ∃ r, isScalar r ∧ Utf8Range.inR r ranges ∧ bs = encode r :=
   Utf8Range.classSeqs_exact_of_exactClass ranges h bs
@@ -103,12 +104,22 @@ theorem C15_dumped_class_automaton_exact (N : Nfa.NFA) (ranges : List (Nat × Na
     Nfa.Accepts N h 0 h.size ↔ ∃ r, isScalar r ∧ Utf8Range.inR r ranges ∧ h.toList = encode r :=
   Utf8Range.nfa_class_exact_of_exactClass N ranges hx hp h
 
-/-- the defect the theorem's third disjunct records: a class of at most 256 runes containing a surrogate accepts the
-    ill-formed bytes ED A0 80 (regexp never matches them with that class); confirmed on the real compiler -/
-theorem C15_small_class_surrogate_defect :
-    Utf8Range.wfRanges [(0xD7FF, 0xD800)] = true ∧
-    Utf8Range.accepts (Utf8Range.classSeqs [(0xD7FF, 0xD800)]) [0xED, 0xA0, 0x80] = true ∧
-    ¬ ∃ r, isScalar r ∧ [0xED, 0xA0, 0x80] = encode r := Utf8Range.small_class_surrogate_defect
+/-- the former small-class surrogate defect is gone: the class `[\x{D7FF}-\x{D800}]` (2 runes, literal-alternation path)
+    rejects the ill-formed bytes ED A0 80 and still accepts U+D7FF = ED 9F BF; the all-surrogate class
+    `[\x{D800}-\x{D8FF}]` (256 runes, same path) emits no byte sequence (a Fail state) and accepts nothing;
+    confirmed on the real compiler -/
+theorem C15_small_class_surrogate_fixed :
+    Utf8Range.wfRanges [(0xD7FF, 0xD800)] = true ∧ Utf8Range.usesSmall [(0xD7FF, 0xD800)] = true ∧
+    Utf8Range.accepts (Utf8Range.classSeqs [(0xD7FF, 0xD800)]) [0xED, 0xA0, 0x80] = false ∧
+    Utf8Range.accepts (Utf8Range.classSeqs [(0xD7FF, 0xD800)]) [0xED, 0x9F, 0xBF] = true ∧
+    (¬ ∃ r, isScalar r ∧ [0xED, 0xA0, 0x80] = encode r) ∧
+    Utf8Range.usesSmall [(0xD800, 0xD8FF)] = true ∧ Utf8Range.classSeqs [(0xD800, 0xD8FF)] = [] ∧
+    ∀ bs, Utf8Range.accepts (Utf8Range.classSeqs [(0xD800, 0xD8FF)]) bs = false := Utf8Range.small_class_surrogate_fixed
+
+/-- a class made of surrogates only accepts nothing, on every compilation path -/
+theorem C15_all_surrogate_class_empty (ranges : List (Nat × Nat)) (hwf : Utf8Range.wfRanges ranges = true)
+    (hs : ∀ r, Utf8Range.inR r ranges → 0xD800 ≤ r ∧ r ≤ 0xDFFF) (bs : List Nat) :
+    Utf8Range.accepts (Utf8Range.classSeqs ranges) bs = false := Utf8Range.all_surrogate_class_empty ranges hwf hs bs
 
 example : decodeAt #[0xE4, 0xB8, 0x96, 0x41] 0 = (0x4E16, 3) := by decide
 example : decodeAt #[0xED, 0xA0, 0x80] 0 = (0xFFFD, 1) := by decide   -- surrogate: ill-formed
